@@ -15,10 +15,7 @@ for c in m['checks']:
     ev = json.load(open(c['evidence_file']))
     try:
         jsonschema.validate(ev, sch); okev = ev['level'] == c['level_claimed']['category'] and ev['tier'] == tier
-        if ev['level'] == 'proof':
-            kf = ev['coverage'].get('known_findings_reported', 0)
-            kf = len(kf) if isinstance(kf, list) else int(kf or 0)
-            okev = okev and ev['coverage']['obligations'] == ev['coverage']['discharged'] + kf
+        if ev['level'] == 'proof': okev = okev and ev['coverage']['obligations'] == ev['coverage']['discharged']   # a proof has no open obligation (a known finding means the level is not `proof`)
     except Exception as e:
         okev = False
     last = r.stdout.strip().splitlines()[-1] if r.stdout.strip() else ''
